@@ -29,6 +29,7 @@ def run(F, R, ctx):
     _run(F, R, ctx)
     error_span_rule(F, R)
     reader_per_port_rule(F, R)
+    symbol_write_rule(F, R)
 
 
 def _run(F, R, ctx):
@@ -221,3 +222,38 @@ def reader_per_port_rule(F, R):
                "read-impl): text buffered from one port is returned by reads on another — after (read (open-input-string "
                "\"hello world\")), (read (open-input-string \"(1 2 3)\")) returns world — and an unclosed form on one port "
                "makes every later read return eof" % entry, where(fn), sample={"tables": sorted(tables), "selectors": sorted(selectors)})
+
+
+def symbol_write_rule(F, R):
+    from . import c07
+    R.rule("C12.w", "the writer does not print a symbol's name verbatim without looking at it: in the write-mode formatter "
+                    "(CycleDetector::format_with_cycles) the SymbolV arm branches on a predicate computed from the symbol's "
+                    "text before it emits it (sibling agreement with the StringV arm, which escapes) — a name containing a "
+                    "delimiter, the empty name, a name that looks like a number or #t would otherwise be read back as "
+                    "something else")
+    fn = F.one(r"\{impl CycleDetector\}::format_with_cycles$")
+    sws = lib.enum_switches(fn, "SteelVal")
+    if not sws:
+        raise CheckError("anchor lost: format_with_cycles does not match on SteelVal")
+    sw = max(sws, key=lambda x: len(fn.blocks[x]["targets"]))
+    am = lib.arm_map(fn, sw)
+    if "SymbolV" not in am or am["SymbolV"] == am.get("_"):
+        raise CheckError("anchor lost: no SymbolV arm in format_with_cycles")
+    others = {t for v, t in am.items() if v != "SymbolV"}
+    region = fn.reachable_from([am["SymbolV"]], avoid=others | set(fn.dominators()[sw]))
+    maps = c07._backward(fn)
+    pred = False
+    for b in region:
+        blk = fn.blocks[b]
+        if blk["k"] != "switch" or blk["on"] != "bool":
+            continue
+        loc = re.match(r"_\d+", blk.get("place", "").strip("()*"))
+        if not loc:
+            continue
+        org = c07._origins(fn, loc.group(0), maps)
+        if any(o.split(".")[0] in maps[2] and maps[2][o.split(".")[0]]["callee"].startswith("steel::") for o in org):
+            pred = True
+    R.inst("C12.w", "format_with_cycles / SymbolV arm consults a quoting predicate", pred,
+           "the SymbolV arm of CycleDetector::format_with_cycles writes the symbol's name as it is: "
+           "(write (string->symbol \"hello world\")) prints hello world, which reads back as two symbols; '|| prints "
+           "nothing; (string->symbol \"1\") prints 1, which reads back as a number", fn.loc(), sample=True)
